@@ -24,7 +24,9 @@ purpose is in design.d/C19.md, every construct is run through Python and Lean by
                shapes of `for`:
                  over a literal list (unrolled) | `if c: return e` (List.find?) |
                  flag with `break` and `else: flag = False` (List.any) | updates of one local (List.foldl);
-               the last three may start with guards `if c: continue` (the list is filtered; no other `continue`)
+               the last three may start with guards `if c: continue` (the list is filtered; no other `continue`);
+               inside an accumulation: `for y in L: if c: <updates>; break` (the updates for the first y with c),
+               `S.add(e)` on a local declared `set()` (a list; only emptiness and membership are meaningful)
   expressions str / bool / None / int constants, tuples, `{"k": "v", ...}` and `[…]` literals, names of parameters and
                locals, `d["k"]` (KeyError when missing), `==`, `!=`, `is None`, `is not None`, `< <= > >=` and `+ - *`
                on integers, `max(a, b)`, `min(a, b)`, `len(list)`, `in` / `not in` on literal lists/tuples/sets of
@@ -1035,6 +1037,9 @@ class _Fn:
             return False                                   # only ever read by log / exception messages
         if isinstance(value, ast.List) and not value.elts and name in self.spec.local_types:
             return self._store(name, "[]", self.spec.local_types[name], depth, top, where, value)
+        if isinstance(value, ast.Call) and isinstance(value.func, ast.Name) and value.func.id == "set" and not value.args \
+                and not value.keywords and "set" not in self.assigned and self.spec.local_types.get(name) == "sset":
+            return self._store(name, "[]", "sset", depth, top, where, value)      # the empty set
         try:
             t, ty = self._expr_or_lowered(value, depth, where)
         except Unsupported:
@@ -1375,16 +1380,18 @@ class _Fn:
             if ok and len(mentions) == allowed and self.assigned.get(flag) == len(body) - 1 + 1:
                 return "any"
         # (3)  for x in L: [lets]; statements that update ONE declared local
-        if s.orelse or any(isinstance(n, (ast.Break, ast.Return, ast.Raise)) for b in body for n in ast.walk(b)):
+        inner_breaks = {id(n.body[0].body[-1]) for b in body for n in ast.walk(b) if _first_match_loop(n)}
+        if s.orelse or any(isinstance(n, (ast.Return, ast.Raise)) or (isinstance(n, ast.Break) and id(n) not in inner_breaks)
+                           for b in body for n in ast.walk(b)):
             raise Unsupported(f"{where}: this loop shape is outside the subset (accepted: `if c: return e` search loops, "
                               "flag loops with `break` and `else: flag = False`, accumulations without break/return)")
         accs = set()
         for b in body:
             for n in ast.walk(b):
-                if isinstance(n, ast.Name) and isinstance(n.ctx, ast.Store):
+                if isinstance(n, ast.Name) and isinstance(n.ctx, ast.Store) and n.id not in self.loopvars:
                     accs.add(n.id)
                 if isinstance(n, ast.Expr) and isinstance(n.value, ast.Call) and isinstance(n.value.func, ast.Attribute) \
-                        and n.value.func.attr == "append" and isinstance(n.value.func.value, ast.Name):
+                        and n.value.func.attr in ("append", "add") and isinstance(n.value.func.value, ast.Name):
                     accs.add(n.value.func.value.id)
         if len(accs) != 1 or list(accs)[0] not in self.locals:
             raise Unsupported(f"{where}: the loop body updates {sorted(accs)}; exactly one local declared before the "
@@ -1415,10 +1422,30 @@ class _Fn:
                 if elem_type(ta) != ty:
                     raise Unsupported(f"{w}: a {ty} appended to a {ta}")
                 steps.append(f"({a} ++ [{t}])")
+            elif isinstance(b, ast.Expr) and isinstance(b.value, ast.Call) and isinstance(b.value.func, ast.Attribute) \
+                    and b.value.func.attr == "add" and isinstance(b.value.func.value, ast.Name) \
+                    and b.value.func.value.id == acc and len(b.value.args) == 1 and not b.value.keywords and ta == "sset":
+                t, ty = self.expr(b.value.args[0], False)
+                if ty != "str":
+                    raise Unsupported(f"{w}: a {ty} added to a set of strings")
+                steps.append(f"({a} ++ [{t}])")
             elif isinstance(b, ast.If):
                 c = self.cond(b.test, False)
                 steps.append(f"(if {c} then {self._fold_seq(b.body, acc, where)} else "
                              f"{self._fold_seq(b.orelse, acc, where) if b.orelse else a})")
+            elif _first_match_loop(b):
+                # for y in L: if c: <updates>; break     -> the updates for the first y with c, nothing when there is none
+                if not isinstance(b.target, ast.Name) or b.target.id not in self.loopvars:
+                    raise Unsupported(f"{w}: loop target `{ast.unparse(b.target)}`")
+                src, ts = self.expr(b.iter, False)
+                et = elem_type(ts)
+                if et is None:
+                    raise Unsupported(f"{w}: loop over a {ts} (lists only)")
+                y = lean_ident(b.target.id)
+                test = b.body[0]
+                hit = self._under({b.target.id: (y, et)},
+                                  lambda: (self.cond(test.test, False), self._fold_seq(test.body[:-1], acc, where)))
+                steps.append(f"(match ({src}.find? (fun {y} => {hit[0]})) with | some {y} => {hit[1]} | none => {a})")
             else:
                 raise Unsupported(f"{w}: statement `{ast.unparse(b)[:60]}` in an accumulating loop")
         if not steps:
@@ -1471,6 +1498,14 @@ class _Fn:
                 b2 = ast.fix_missing_locations(T().visit(copy.deepcopy(b)))
                 done = self.stmt(b2, depth, top)
         return done
+
+
+def _first_match_loop(n):
+    """`for y in L: if c: <statements>; break` (no else branches): acts on the first element with `c`"""
+    return isinstance(n, ast.For) and not n.orelse and len(n.body) == 1 and isinstance(n.body[0], ast.If) \
+        and not n.body[0].orelse and len(n.body[0].body) >= 2 and isinstance(n.body[0].body[-1], ast.Break) \
+        and not any(isinstance(x, (ast.Break, ast.Continue, ast.Return, ast.Raise, ast.For))
+                    for st in n.body[0].body[:-1] for x in ast.walk(st))
 
 
 def _dotted(node):
